@@ -5,7 +5,8 @@
 import SfProofs.RdwrInv
 namespace Sf
 
-theorem hdrLenOf_congr_rw (h h' : H) (h0 : h'.container = h.container) (h1 : h'.fmtWord = h.fmtWord) (h2 : h'.peak = h.peak)
+theorem hdrLenOf_congr_rw (h h' : H) (h0 : h'.container = h.container) (h1 : h'.fmtWord = h.fmtWord)
+    (h2 : h'.peak.map List.length = h.peak.map List.length)
     (h3 : h'.peakAtStart = h.peakAtStart) : hdrLenOf h' = hdrLenOf h := by
   unfold hdrLenOf wavHdrLen
   rw [h0, h1, h2, h3]
@@ -14,7 +15,7 @@ theorem hdrLenOf_congr_rw (h h' : H) (h0 : h'.container = h.container) (h1 : h'.
 theorem RwView.rebuild {h : H} {s : Store} {R W F : Nat} {hdr D : List Byte} (v : RwView h s R W F hdr D)
     (h' : H) (s' : Store) (R' W' F' : Nat) (hdr' D' : List Byte)
     (c1 : h'.mode = h.mode) (c2 : h'.ch = h.ch) (c3 : h'.enc = h.enc) (c4 : h'.dataoffset = h.dataoffset)
-    (c5 : h'.peak = h.peak) (c6 : h'.container ≠ .wav → h'.dataend = 0) (c7 : h'.container = h.container)
+    (c5 : h'.peak.map List.length = h.peak.map List.length) (c6 : h'.container ≠ .wav → h'.dataend = 0) (c7 : h'.container = h.container)
     (c8 : h'.fmtWord = h.fmtWord)
     (c9 : h'.peakAtStart = h.peakAtStart)
     (hr : h'.rpos = R') (hw : h'.wpos = W') (hf : h'.frames = F')
@@ -28,7 +29,17 @@ theorem RwView.rebuild {h : H} {s : Store} {R W F : Nat} {hdr D : List Byte} (v 
   have hb' : ∃ t, s'.bytes = hdr' ++ (D' ++ zeros t) ∧ TailOk h' t := by
     obtain ⟨t, e1, e2⟩ := hb
     exact ⟨t, e1, by unfold TailOk at e2 ⊢; rw [c7]; exact e2⟩
-  exact ⟨c1.trans v.mode, c2 ▸ v.ch_pos, c3 ▸ v.nb_pos, hr, hw, hf, by rw [c4, e]; exact v.doff, c5.trans v.peak, c6, hb',
+  have hpk' : PeakOk h' := by
+    intro ps' hp'
+    rw [hp'] at c5
+    cases hp : h.peak with
+    | none => rw [hp] at c5; cases c5
+    | some ps =>
+      rw [hp] at c5
+      obtain ⟨a, b⟩ := v.peak ps hp
+      have : ps'.length = ps.length := by simpa using c5
+      exact ⟨by rw [this, a, c2], by rw [c9]; exact b⟩
+  exact ⟨c1.trans v.mode, c2 ▸ v.ch_pos, c3 ▸ v.nb_pos, hr, hw, hf, by rw [c4, e]; exact v.doff, hpk', c6, hb',
     by rw [e, hl, hl0], by rw [eb]; exact hd, by rw [e, ← hl0]; exact hp, by rw [e, eb, ← hl0]; exact sw,
     by rw [e, eb, ← hl0]; exact sr⟩
 
